@@ -196,7 +196,14 @@ func Load(repoRoot string, pkgPaths []string, externalDir string) (*Program, err
 			}
 		}
 	}
-	for _, p := range initial {
+	var repoPkgs []*packages.Package
+	for path, p := range prog.Pkgs {
+		if prog.InRepo(path) {
+			repoPkgs = append(repoPkgs, p)
+		}
+	}
+	sort.Slice(repoPkgs, func(i, j int) bool { return repoPkgs[i].PkgPath < repoPkgs[j].PkgPath })
+	for _, p := range repoPkgs {
 		for _, gf := range p.CompiledGoFiles {
 			if filepath.Base(gf) != "zz_verif_contracts.go" {
 				continue
